@@ -446,9 +446,13 @@ val concat : 'a1 list list -> 'a1 list
 
 val map : ('a1 -> 'a2) -> 'a1 list -> 'a2 list
 
+val flat_map : ('a1 -> 'a2 list) -> 'a1 list -> 'a2 list
+
 val fold_left : ('a1 -> 'a2 -> 'a1) -> 'a2 list -> 'a1 -> 'a1
 
 val fold_right : ('a2 -> 'a1 -> 'a1) -> 'a1 -> 'a2 list -> 'a1
+
+val find : ('a1 -> bool) -> 'a1 list -> 'a1 option
 
 val repeat : 'a1 -> nat -> 'a1 list
 
@@ -1257,6 +1261,181 @@ val framing_spec_enc : slice -> tlsEncrypted res
 val spec_exact : ('a1 -> sx) -> 'a1 res -> byte list
 
 val spec_entries_tls : (string * entry_fn) list
+
+type tlsState =
+| SNone
+| SClientHello
+| SAskResumeSession
+| SResumeSession
+| SServerHello
+| SCertificate
+| SCertificateSt
+| SServerKeyExchange
+| SServerHelloDone
+| SClientKeyExchange
+| SClientChangeCipherSpec
+| SCRCertRequest
+| SCRHelloDone
+| SCRCert
+| SCRClientKeyExchange
+| SCRCertVerify
+| SNoCertSKE
+| SNoCertHelloDone
+| SNoCertCKE
+| SPskHelloDone
+| SPskCKE
+| SSessionEncrypted
+| SAlert
+| SFinished
+| SInvalid
+
+type hs_kind =
+| KHelloRequest
+| KClientHello
+| KServerHello
+| KServerHelloV13Draft18
+| KNewSessionTicket
+| KEndOfEarlyData
+| KHelloRetryRequest
+| KCertificate
+| KServerKeyExchange
+| KCertificateRequest
+| KServerDone
+| KCertificateVerify
+| KClientKeyExchange
+| KFinished
+| KCertificateStatus
+| KNextProtocol
+| KKeyUpdate
+
+type spat =
+| SP_any
+| SP_bind
+| SP_is of tlsState
+
+type hpat =
+| HP_any
+| HP_is of hs_kind
+
+type dpat =
+| DP_any
+| DP_is of bool
+
+type mpat =
+| MP_any
+| MP_handshake
+| MP_ccs
+| MP_alert
+| MP_appdata
+| MP_heartbeat
+
+type hrhs =
+| R_ok of tlsState
+| R_same
+| R_invalid
+| R_sid_split of tlsState * tlsState
+
+type orhs =
+| O_ok of tlsState
+| O_same
+| O_invalid
+| O_delegate
+| O_alert_split of tlsState
+
+val all_states : tlsState list
+
+val all_hs_kinds : hs_kind list
+
+val tlsState_beq : tlsState -> tlsState -> bool
+
+val hs_kind_beq : hs_kind -> hs_kind -> bool
+
+val hs_arms : (((spat * hpat) * dpat) * hrhs) list
+
+val outer_arms : (((spat * mpat) * dpat) * orhs) list
+
+val alert_keep_severity : n
+
+type mkind =
+| MkHs of hs_kind * bool
+| MkCcs
+| MkAlert of n * n
+| MkAppData
+| MkHeartbeat
+
+type akind =
+| AHs of hs_kind * bool
+| ACcs
+| AAlert of bool
+| AAppData
+| AHeartbeat
+
+val abs_kind : n -> mkind -> akind
+
+val spat_m : spat -> tlsState -> bool
+
+val dpat_m : dpat -> bool -> bool
+
+val hpat_m : hpat -> hs_kind -> bool
+
+val mpat_m : mpat -> akind -> bool
+
+val hs_first :
+  (((spat * hpat) * dpat) * hrhs) list -> tlsState -> hs_kind -> bool -> bool
+  -> tlsState option
+
+val tls_state_transition_handshake :
+  tlsState -> hs_kind -> bool -> bool -> tlsState option
+
+val outer_first :
+  (((spat * mpat) * dpat) * orhs) list -> tlsState -> akind -> bool ->
+  tlsState option
+
+val transition_a : tlsState -> akind -> bool -> tlsState option
+
+val tls_state_transition : tlsState -> mkind -> bool -> tlsState option
+
+val state_name : tlsState -> string
+
+val parse_msg_tok : byte list -> mkind * bool
+
+val run_states_line :
+  (tlsState -> mkind -> bool -> tlsState option) -> byte list list -> byte
+  list
+
+type who =
+| C
+| S0
+| AnySide
+
+type stepmsg =
+| HsM of hs_kind
+| ChNoSid
+| ChSid
+| Ccs
+
+type step = (stepmsg * who) * tlsState
+
+type flow = tlsState * step list
+
+val flows : flow list
+
+val path_edges :
+  tlsState -> step list -> (((tlsState * stepmsg) * who) * tlsState) list
+
+val edges : (((tlsState * stepmsg) * who) * tlsState) list
+
+val who_m : who -> bool -> bool
+
+val stepmsg_m : stepmsg -> akind -> bool
+
+val find_edge : tlsState -> akind -> bool -> tlsState option
+
+val spec_a : tlsState -> akind -> bool -> tlsState option
+
+val wARNING : n
+
+val spec_transition : tlsState -> mkind -> bool -> tlsState option
 
 val all_entries : (string * entry_fn) list
 
